@@ -259,7 +259,7 @@ def expr_s(draw, env, depth):
 
 def expr_b(draw, env, depth, pure=True):
     """match decider"""
-    choices = ["hdr", "cmp", "cmp", "eq", "empty"]
+    choices = ["hdr", "cmp", "cmp", "eq", "empty", "in"]
     if env.vars:
         choices.append("var")
     if depth > 0:
@@ -316,6 +316,11 @@ def expr_b(draw, env, depth, pure=True):
         fn = draw(st.sampled_from(["all", "missing"]))
         n = draw(st.integers(2, 3))
         return ["f", fn, [], [_hdr(draw, *draw(st.sampled_from(list(enumerate(env.cols))))) for _ in range(n)]]
+    if k == "in" and env.col(["int"], dense=True) and draw(st.booleans()):
+        # numeric cells against bare numeric terms: a term is treated as a '|'-delimited string of values
+        a = _hdr(draw, *draw(st.sampled_from(env.col(["int"], dense=True))))
+        terms = [["t", draw(st.sampled_from([0, 1, 2, 3, 5, 7, 10, 11, 12, 100, -1]))] for _ in range(draw(st.integers(1, 3)))]
+        return ["f", "in", [], [a] + terms]
     if k == "in":
         a = expr_s(draw, env, 0)
         if draw(st.booleans()):
